@@ -235,3 +235,53 @@ package core
 //@   ensures length: wr(out) == cnt(in, len(in))
 //@   ensures elems: forall j :: 0 <= j && j < len(in) && (tSignal(in[j]) || (tCurrent(in[j]) != 0 &&
 //@       (exists m :: 0 <= m && m < len(ids) && ids[m] == cast(tCurrent(in[j]), "*gdbi.DataElement").ID))) ==> out[cnt(in, j)] == in[j]
+
+// ---- C01: the static typing table and the step -> processor translation -----------
+// StatementProcessor maps one statement to the processor that implements it and
+// advances the static element type (ps.LastType). The clauses below are the rows of
+// that table which C01 names: bounds of limit/skip/range are carried over exactly;
+// moves are only accepted on vertices/edges and yield the documented element type;
+// filters, select, render, path, fields, distinct and aggregate are rejected with an
+// error (and no processor) on anything that is not a vertex or an edge.
+//@ func StatementProcessor
+//@   property C01
+//@   option load=gripql,gdbi,engine/pipeline,util/protoutil,engine/logic,jsonpath
+//@   requires nonnil: gs != nil && ps != nil
+//@   axiom wireWrapStmt: forall s:*gripql.GraphStatement :: s != nil && isAPtr(s.Statement) ==> ref(s.Statement) != 0
+//@   let lt0 = ps.LastType
+//@   let st = gs.Statement
+//@   let velem = ps.LastType == gdbi.VertexData || ps.LastType == gdbi.EdgeData
+//@   ensures limit: dyn(st, "*gripql.GraphStatement_Limit") ==> result.1 == nil && dyn(result.0, "*Limit") &&
+//@       ptr(result.0, "*Limit").count == ptr(st, "*gripql.GraphStatement_Limit").Limit && ps.LastType == lt0
+//@   ensures skip: dyn(st, "*gripql.GraphStatement_Skip") ==> result.1 == nil && dyn(result.0, "*Skip") &&
+//@       ptr(result.0, "*Skip").count == ptr(st, "*gripql.GraphStatement_Skip").Skip && ps.LastType == lt0
+//@   ensures count: dyn(st, "*gripql.GraphStatement_Count") ==> result.1 == nil && dyn(result.0, "*Count") && ps.LastType == gdbi.CountData
+//@   ensures startV: dyn(st, "*gripql.GraphStatement_V") ==> ((lt0 != gdbi.NoData ==> result.1 != nil) &&
+//@       (lt0 == gdbi.NoData ==> result.1 == nil && dyn(result.0, "*LookupVerts") && ps.LastType == gdbi.VertexData))
+//@   ensures startE: dyn(st, "*gripql.GraphStatement_E") ==> ((lt0 != gdbi.NoData ==> result.1 != nil) &&
+//@       (lt0 == gdbi.NoData ==> result.1 == nil && dyn(result.0, "*LookupEdges") && ps.LastType == gdbi.EdgeData))
+//@   ensures out: dyn(st, "*gripql.GraphStatement_Out") ==> ((!velem ==> result.1 != nil) &&
+//@       (lt0 == gdbi.VertexData ==> result.1 == nil && dyn(result.0, "*LookupVertexAdjOut") && ps.LastType == gdbi.VertexData) &&
+//@       (lt0 == gdbi.EdgeData ==> result.1 == nil && dyn(result.0, "*LookupEdgeAdjOut") && ps.LastType == gdbi.VertexData))
+//@   ensures in: dyn(st, "*gripql.GraphStatement_In") ==> ((!velem ==> result.1 != nil) &&
+//@       (lt0 == gdbi.VertexData ==> result.1 == nil && dyn(result.0, "*LookupVertexAdjIn") && ps.LastType == gdbi.VertexData) &&
+//@       (lt0 == gdbi.EdgeData ==> result.1 == nil && dyn(result.0, "*LookupEdgeAdjIn") && ps.LastType == gdbi.VertexData))
+//@   ensures both: dyn(st, "*gripql.GraphStatement_Both") ==> ((!velem ==> result.1 != nil) &&
+//@       (velem ==> result.1 == nil && dyn(result.0, "*both") && ps.LastType == gdbi.VertexData &&
+//@           ptr(result.0, "*both").lastType == lt0 && ptr(result.0, "*both").toType == gdbi.VertexData))
+//@   ensures outE: dyn(st, "*gripql.GraphStatement_OutE") ==> ((lt0 != gdbi.VertexData ==> result.1 != nil) &&
+//@       (lt0 == gdbi.VertexData ==> result.1 == nil && dyn(result.0, "*OutE") && ps.LastType == gdbi.EdgeData))
+//@   ensures inE: dyn(st, "*gripql.GraphStatement_InE") ==> ((lt0 != gdbi.VertexData ==> result.1 != nil) &&
+//@       (lt0 == gdbi.VertexData ==> result.1 == nil && dyn(result.0, "*InE") && ps.LastType == gdbi.EdgeData))
+//@   ensures bothE: dyn(st, "*gripql.GraphStatement_BothE") ==> ((lt0 != gdbi.VertexData ==> result.1 != nil) &&
+//@       (lt0 == gdbi.VertexData ==> result.1 == nil && dyn(result.0, "*both") && ps.LastType == gdbi.EdgeData &&
+//@           ptr(result.0, "*both").lastType == gdbi.VertexData && ptr(result.0, "*both").toType == gdbi.EdgeData))
+//@   ensures has: dyn(st, "*gripql.GraphStatement_Has") ==> ((!velem ==> result.1 != nil) &&
+//@       (velem ==> result.1 == nil && dyn(result.0, "*Has") && ps.LastType == lt0 &&
+//@           ptr(result.0, "*Has").stmt == ptr(st, "*gripql.GraphStatement_Has").Has))
+//@   ensures illtyped: !velem && (dyn(st, "*gripql.GraphStatement_HasLabel") || dyn(st, "*gripql.GraphStatement_HasId") ||
+//@       dyn(st, "*gripql.GraphStatement_HasKey") || dyn(st, "*gripql.GraphStatement_Distinct") ||
+//@       dyn(st, "*gripql.GraphStatement_Select") || dyn(st, "*gripql.GraphStatement_Render") ||
+//@       dyn(st, "*gripql.GraphStatement_Path") || dyn(st, "*gripql.GraphStatement_Fields") ||
+//@       dyn(st, "*gripql.GraphStatement_Aggregate")) ==> result.1 != nil
+//@   ensures noproc: result.1 != nil && !dyn(st, "*gripql.GraphStatement_EngineCustom") ==> result.0 == nil && ps.LastType == lt0
